@@ -5,4 +5,7 @@ PROP = "C10"
 
 
 def main():
-    return G.main(PROP, dict(trusted=G.COMMON_TRUSTED, assumptions=G.COMMON_ASSUMPTIONS))
+    return G.main(PROP, dict(verus_units=[("index_tables", 5)],
+                             trusted=G.COMMON_TRUSTED + ["Verus unit index_tables (real SemanticActionTable::new/add, SemanticActionIdx::as_usize, RightCtxDFAs::new_right_ctx; rules R7 R8 R14 subst): the action payload, the "
+                                                         "regex and the context automaton are opaque; the three statements that build a context's automaton are replaced by one trusted call (R7/R8)"],
+                             assumptions=G.COMMON_ASSUMPTIONS + ["proved (unit index_tables): the index stored in a rule for its action (SemanticActionTable::add) is exactly the position at which THAT action is stored, and earlier actions are untouched - so the action the generated code calls for a rule is the one written in that rule"]))
